@@ -136,6 +136,9 @@ func pool() []univ.SNode {
 		mk(leaf, "record"), mk(ref.Array(leaf), "array>record"),
 		mk(ref.Union(ref.Prim("null"), ref.Prim("long"), ref.Prim("string")), "union[null,long,string]"),
 		mk(ref.Array(ref.Array(ref.Prim("bytes"))), "array>array>bytes"),
+		// nullable unions decoded into NARROW non-pointer fields (null leaves the field alone): with the fields of
+		// the target permuted or thinned out, an already decoded neighbour sits right behind them
+		mk(ref.Union(ref.Prim("null"), ref.Prim("int")), "union01>int(int32)"), mk(ref.Union(ref.Prim("boolean"), ref.Prim("null")), "union10>boolean(bool)"),
 	}
 }
 
@@ -160,6 +163,12 @@ func poolDatums(n univ.SNode) []ref.Datum {
 	if n.Chain == "union[null,long,string]" {
 		return []ref.Datum{ref.DUnion(0, ref.DNull()), ref.DUnion(2, ref.DString("str")), ref.DUnion(1, ref.DLong(-77))}
 	}
+	if n.Chain == "union01>int(int32)" {
+		return []ref.Datum{ref.DUnion(0, ref.DNull()), ref.DUnion(1, ref.DInt(-7)), ref.DUnion(0, ref.DNull())}
+	}
+	if n.Chain == "union10>boolean(bool)" {
+		return []ref.Datum{ref.DUnion(1, ref.DNull()), ref.DUnion(0, ref.DBool(true)), ref.DUnion(1, ref.DNull())}
+	}
 	if n.Chain == "record" {
 		return []ref.Datum{ref.DRecord(ref.DLong(0), ref.DString("")), ref.DRecord(ref.DLong(-5), ref.DString("five")), ref.DRecord(ref.DLong(1<<60), ref.DString("\xff"))}
 	}
@@ -172,6 +181,10 @@ func poolDatums(n univ.SNode) []ref.Datum {
 // target Go type for a pool schema (nil for schemas that can only be skipped)
 func poolTarget(n univ.SNode) reflect.Type {
 	switch n.Chain {
+	case "union01>int(int32)":
+		return reflect.TypeOf(int32(0))
+	case "union10>boolean(bool)":
+		return reflect.TypeOf(false)
 	case "union[null,long,string]":
 		return nil
 	case "record":
@@ -264,6 +277,25 @@ func projections(fields []reflect.StructField, f func(t reflect.Type, desc strin
 	}
 }
 
+// poisonBuild attempts a codec build that is bound to FAIL half-way (a struct whose fields carry every column name
+// of the pairs but types no schema accepts): whatever the builder keeps in pooled or cached scratch state on its
+// error paths is there for the next build.
+type poisonT struct {
+	A chan int `json:"a"`
+	B chan int `json:"b"`
+	Z chan int `json:"z"`
+	R chan int `json:"r"`
+	N chan int `json:"new_int"`
+	S chan int `json:"new_str"`
+}
+
+func poisonBuild(rs *ref.Schema) {
+	defer func() { recover() }()
+	if s, err := avro.SchemaFromString(rs.Print(nil)); err == nil {
+		s.Codec(poisonT{})
+	}
+}
+
 func runPair(c *fw.Ctx, idx int, x, y univ.SNode, nested bool) {
 	// writer schema: record{a:X, b:Y, z:long}  or  record{r: record{a:X, b:Y}, z:long}
 	inner := []ref.Field{ref.F("a", x.Schema), ref.F("b", y.Schema)}
@@ -343,6 +375,9 @@ func runPair(c *fw.Ctx, idx int, x, y univ.SNode, nested bool) {
 		}
 		projections(fields, func(t reflect.Type, pdesc string) {
 			k++
+			if k%5 == 0 {
+				poisonBuild(rs)
+			}
 			f2 := f
 			f2.encDesc += " projection " + pdesc
 			readAndCompare(c, f2, data, t, k%2 == 0, "projection|"+locus, false)
@@ -438,7 +473,7 @@ func init() {
 		ID:    "C04",
 		Level: "exploration",
 		Rule: func(tier string) string {
-			return "(1) codec level: for every schema node of the C03 universe, every datum and every legal serialisation (first 256 per datum in quick; thorough: all at depth<=1, first 20000 at depth 2, first 256 at depth 3) followed by a 3-byte tail, ReadBuf.Len() after Codec.Read, after reading through a record codec whose struct lacks the field (skip path), and after Codec.Skip must all equal the reference decoder's consumption; (2) file level: writer schemas record{a:X, b:Y, z:long, Z:string} (the column Z differs from z only in case and has no counterpart in any target) for every ordered pair (X,Y) of an 18-schema pool (primitives, fixed, arrays/maps incl. nested and nullable items, unions null-first/null-second/multi-branch, records, arrays of records; and, skip-only, a 130-branch union with every branch selected so that two-byte selectors occur) and the nested form record{r:record{a:X,b:Y}, z}; 3-record reference-written files in every encoding variant with <=2 writer-side deviations, rotating over block partitions and codecs; every projection of the full target struct: every subset of fields deleted × every permutation of the rest × {nothing, or one added field of kind int64/string/*int64/[]string/map[string]int64/struct, an embedded struct whose field names collide with the columns (before and after the kept fields), an unexported field tagged with a column's name}; oracle: remaining fields equal gv.Expect, added fields zero, same record count, nil error (the trailing sync check makes a mis-sized skip visible); non-trivial = a distinct (file, projection) or (encoding) that reached the comparison"
+			return "(1) codec level: for every schema node of the C03 universe, every datum and every legal serialisation (first 256 per datum in quick; thorough: all at depth<=1, first 20000 at depth 2, first 256 at depth 3) followed by a 3-byte tail, ReadBuf.Len() after Codec.Read, after reading through a record codec whose struct lacks the field (skip path), and after Codec.Skip must all equal the reference decoder's consumption; (2) file level: writer schemas record{a:X, b:Y, z:long, Z:string} (the column Z differs from z only in case and has no counterpart in any target) for every ordered pair (X,Y) of a 20-schema pool (primitives, nullable int/boolean into narrow non-pointer fields, fixed, arrays/maps incl. nested and nullable items, unions null-first/null-second/multi-branch, records, arrays of records; and, skip-only, a 130-branch union with every branch selected so that two-byte selectors occur) and the nested form record{r:record{a:X,b:Y}, z}; 3-record reference-written files in every encoding variant with <=2 writer-side deviations, rotating over block partitions and codecs; every projection of the full target struct: every subset of fields deleted × every permutation of the rest × {nothing, or one added field of kind int64/string/*int64/[]string/map[string]int64/struct, an embedded struct whose field names collide with the columns (before and after the kept fields), an unexported field tagged with a column's name}; every fifth projection build is preceded by a build that fails half-way (a struct with the same column names and unusable types); oracle: remaining fields equal gv.Expect, added fields zero, same record count, nil error (the trailing sync check makes a mis-sized skip visible); non-trivial = a distinct (file, projection) or (encoding) that reached the comparison"
 		},
 		Assumptions: []string{
 			"the expected value of every remaining field is computed by gv.Expect from the datum (stronger than, and implying, the differential 'same as the full decode')",
